@@ -111,6 +111,21 @@ def expr(t):
         return join(t)
     if k == 'an':
         return analytic(t)
+    if k == 'check':
+        s = 'check(%s' % expr(t['x'])
+        if t['ec'][0] != 0:
+            s += ' errorcode %s' % const(t['ec'])
+        if t['el'][0] != 0:
+            s += ' errorlevel %s' % const(t['el'])
+        if t.get('imb'):
+            s += ' imbalance %s' % expr(t['imb'][0])
+        return s + ' %s)' % t['out']
+    if k == 'dpcheck':
+        return 'check_datapoint(%s, %s %s)' % (expr(t['ds']), t['rs'], t['out'])
+    if k == 'hier':
+        if t['check']:
+            return 'check_hierarchy(%s, %s rule %s %s %s)' % (expr(t['ds']), t['rs'], name(t['comp']), t['mode'], t['out'])
+        return 'hierarchy(%s, %s rule %s %s %s %s)' % (expr(t['ds']), t['rs'], name(t['comp']), t['mode'], t['input'], t['out'])
     if k == 'raw':
         return t['text']
     raise ValueError('cannot render %r' % (t,))
@@ -186,3 +201,43 @@ def bound(b):
 
 def script(stmts):
     return '\n'.join('%s %s %s;' % (name(s['name']), '<-' if s.get('persistent') else ':=', expr(s['expr'])) for s in stmts)
+
+
+def _err(r):
+    s = ''
+    if r['ec'][0] != 0:
+        s += ' errorcode %s' % const(r['ec'])
+    if r['el'][0] != 0:
+        s += ' errorlevel %s' % const(r['el'])
+    return s
+
+
+def prelude(t):
+    """define statements (rulesets) needed by the validation terms inside t"""
+    out = []
+    if isinstance(t, dict):
+        if t.get('k') == 'dpcheck':
+            rules = []
+            for r in t['rules']:
+                body = ('when %s then %s' % (expr(r['when'][0]), expr(r['then']))) if r['when'] else expr(r['then'])
+                rules.append('  %s: %s%s' % (''.join(chr(c) for c in r['name'][1]), body, _err(r)))
+            out.append('define datapoint ruleset %s (variable %s) is\n%s\nend datapoint ruleset;' % (t['rs'], ', '.join(name(v) for v in t['vars']), ';\n'.join(rules)))
+        elif t.get('k') == 'hier':
+            rules = []
+            for r in t['rules']:
+                rhs = ''
+                for j, (sg, c) in enumerate(r['right']):
+                    code = ''.join(chr(x) for x in c[1])
+                    rhs += (code if (j == 0 and sg == '+') else ' %s %s' % (sg, code)) if j else (('-' if sg == '-' else '') + code)
+                rules.append('  %s: %s %s %s%s' % (''.join(chr(c) for c in r['name'][1]), ''.join(chr(x) for x in r['left'][1]), r['op'], rhs, _err(r)))
+            out.append('define hierarchical ruleset %s (variable rule %s) is\n%s\nend hierarchical ruleset;' % (t['rs'], name(t['comp']), ';\n'.join(rules)))
+        for v in t.values():
+            out += prelude(v)
+    elif isinstance(t, list):
+        for v in t:
+            out += prelude(v)
+    return out
+
+
+def statement(res, t, persistent=False):
+    return '\n'.join(prelude(t) + ['%s %s %s;' % (name(res), '<-' if persistent else ':=', expr(t))])
